@@ -45,6 +45,9 @@ type c08Actor struct {
 	cancelAt       int64
 	horizon        bool
 	late           int64 // > 0: a protocol-conforming holder played by the harness, every heartbeat `late` after due
+	killed         bool  // takes the lock through the real code and is then killed (kill -9) after `beats` heartbeats
+	beats          int
+	died           bool  // it did get the lock and was killed holding it
 	out            string
 	acqAt, relAt   int64
 }
@@ -139,6 +142,19 @@ func c08GenScenario(rng *mrand.Rand, base time.Time) *c08Scn {
 			}
 			sc.actors = append(sc.actors, mk(k, nm, c08Start+int64(rng.Intn(40))*250*c08Ms))
 		}
+	case kind < 55: // a short critical section, then a successor that takes the free lock through the REAL code
+		// (often within the same wall-clock second, sometimes seconds later) and is killed holding it,
+		// while the first holder's process — and its leftover heartbeat goroutine — lives on
+		sc.kind = "successor-killed"
+		ms50 := 50 * c08Ms
+		a := mk(0, name, c08Start+int64(rng.Intn(4))*250*c08Ms)
+		a.hold = []int64{ms50, 2 * ms50, 5 * ms50, 12 * ms50, c08Sec, 3 * c08Sec, 7 * c08Sec}[rng.Intn(7)]
+		b := mk(1, name, a.t0-c08Residue(0)+a.hold+int64(1+rng.Intn(8))*ms50)
+		b.killed, b.beats = true, []int{0, 0, 0, 1, 2}[rng.Intn(5)]
+		sc.actors = append(sc.actors, a, b)
+		for k := 2; k <= 2+rng.Intn(2); k++ {
+			sc.actors = append(sc.actors, mk(k, name, b.t0-c08Residue(1)+int64(1+rng.Intn(30))*250*c08Ms))
+		}
 	case kind < 85: // a file left behind by somebody who is gone
 		sc.kind = "pre-existing"
 		sc.f0name = name
@@ -213,7 +229,7 @@ func c08GenScenario(rng *mrand.Rand, base time.Time) *c08Scn {
 	}
 	for k, a := range sc.actors {
 		a.cancelAt = c08Start + total + 3600*c08Sec + c08Residue(k) + 5*c08Ms
-		if a.late == 0 && !sc.racy && rng.Intn(5) == 0 {
+		if a.late == 0 && !a.killed && !sc.racy && rng.Intn(5) == 0 {
 			a.horizon = false
 			a.cancelAt = a.t0 + int64(1+rng.Intn(100))*250*c08Ms + 3*c08Ms
 		} else if sc.racy && rng.Intn(4) == 0 {
@@ -272,6 +288,28 @@ func c08PlayHolder(t *testing.T, base time.Time, dir string, a *c08Actor) {
 	}
 }
 
+// kill -9 of a process that holds the lock, under virtual time inside ONE OS process: the holder
+// never calls Unlock and its heartbeat goroutine has to stop acting after `beats` beats. A goroutine
+// cannot be killed, so the lock file is hidden (renamed away) for the 2 ns around the heartbeat's next
+// wake-up — it finds no file and ends, as it does after a release — and is put back byte for byte:
+// from then on it is the file of a process that is gone. (No other actor acts within those 2 ns: every
+// actor's instants have their own residue modulo 50 ms.)
+func c08Kill(base time.Time, dir string, a *c08Actor) {
+	fn := c08LockFile(dir, a.name)
+	side := fn + ".killed"
+	at := a.acqAt + int64(a.beats+1)*int64(lockFreshnessInterval)
+	time.Sleep(time.Duration(at - 1 - int64(time.Since(base))))
+	if os.Rename(fn, side) != nil {
+		return
+	}
+	time.Sleep(2)
+	if _, err := os.Lstat(fn); err == nil {
+		os.Remove(side)
+		return
+	}
+	os.Rename(side, fn)
+}
+
 func c08RunScenario(t *testing.T, root string, idx int, gen func(base time.Time) *c08Scn) *c08Scn {
 	var sc *c08Scn
 	synctest.Test(t, func(t *testing.T) {
@@ -306,6 +344,10 @@ func c08RunScenario(t *testing.T, root string, idx int, gen func(base time.Time)
 				err := st.Lock(ctx, a.name)
 				now := int64(time.Since(base))
 				switch {
+				case err == nil && a.killed:
+					a.acqAt, a.died = now, true
+					a.out = fmt.Sprintf("acq@%d", now)
+					c08Kill(base, dir, a)
 				case err == nil:
 					a.acqAt = now
 					a.out = fmt.Sprintf("acq@%d", now)
@@ -368,6 +410,9 @@ func c08Emit(o *vOut, sc *c08Scn) {
 		}
 		var toks, outs []string
 		for _, a := range groups[g] {
+			if a.died {
+				continue // on the wire it is what it is to everybody else: a dead process's lock file (below)
+			}
 			fl := "c"
 			if a.horizon {
 				fl = "h"
@@ -386,6 +431,13 @@ func c08Emit(o *vOut, sc *c08Scn) {
 		for _, x := range sc.exts {
 			if StorageKeys.Safe(x.name) == g {
 				toks = append(toks, fmt.Sprintf("x:%d:%s", x.at, x.wire))
+			}
+		}
+		for _, a := range groups[g] {
+			if a.died {
+				// what the lock-file protocol says a holder that took the lock at acqAt and beat `beats`
+				// times leaves behind (the harness's clock, not a reading of the file)
+				toks = append(toks, fmt.Sprintf("x:%d:stamp:%d:%d", a.acqAt, a.acqAt, a.acqAt+int64(a.beats)*int64(lockFreshnessInterval)))
 			}
 		}
 		racy := 0
@@ -440,6 +492,12 @@ func c08Rig1(t *testing.T, o *vOut, rng *mrand.Rand, root string) {
 				actors: []*c08Actor{
 					{name: "d21.example", t0: c08Start + 7*c08Ms, hold: c08Sec, cancelAt: c08Start + 3600*c08Sec, horizon: true},
 					{name: "d21.example", t0: at + 14*c08Ms, hold: c08Sec, cancelAt: c08Start + 3600*c08Sec + 5*c08Ms, horizon: true}}}
+		},
+		func(base time.Time) *c08Scn { // D21 with a successor that takes the lock through the real code and is killed
+			return &c08Scn{kind: "D21-killed", actors: []*c08Actor{
+				{name: "d21k.example", t0: c08Start + 250*c08Ms + 7*c08Ms, hold: 250 * c08Ms, cancelAt: c08Start + 3600*c08Sec, horizon: true},
+				{name: "d21k.example", t0: c08Start + 650*c08Ms + 14*c08Ms, hold: c08Sec, cancelAt: c08Start + 3600*c08Sec + 2*c08Ms, horizon: true, killed: true},
+				{name: "d21k.example", t0: c08Start + 2*c08Sec + 21*c08Ms, hold: c08Sec, cancelAt: c08Start + 3600*c08Sec + 5*c08Ms, horizon: true}}}
 		},
 	}
 	for i, f := range fixed {
